@@ -371,6 +371,9 @@ def judge_grid_copy(rec, cls, obj, new, cent, exp, vals, box, style, dims, inver
             e = [vals[i] if m else float("nan") for i, m in enumerate(exp)]
             same = len(v) == len(e) and all((a == b) or (a != a and b != b) for a, b in zip(v.tolist(), e))
             rec.check("C13.copy-data", same, op="copy_from_extent", cls=cls, attr="cell-data", detail=f"values {v.tolist()} expected {e}")
+        if isinstance(v, np.ndarray) and child.name == "labels":
+            e = [f"cell {i}" if m else "" for i, m in enumerate(exp)]
+            rec.check("C13.copy-data", [str(x) for x in v.tolist()] == e, op="copy_from_extent", cls=cls, attr="cell-text", detail=f"text values {v.tolist()} expected {e}")
 
 
 def do_block(case, rec, rng, ws, dims, inverse, copy):
@@ -391,6 +394,9 @@ def do_block(case, rec, rng, ws, dims, inverse, copy):
                 cent[k + i * nz + j * nu * nz] = (origin[0] + u * ca - v * sa, origin[1] + u * sa + v * ca, origin[2] + 2 * k + 1) if rot else (origin[0] + u, origin[1] + v, origin[2] + 2 * k + 1)
     vals = grid_values(len(cent))
     obj.add_data({"d": {"values": vals.copy(), "association": "CELL"}})
+    if rng.random() < 0.5:
+        obj.add_data({"labels": {"values": np.array([f"cell {i}" for i in range(len(cent))]), "association": "CELL", "type": "text"}})
+        rec.see("grids-with-text-channels")
     for _try in range(20):
         box, style = rand_box(rng, cent, dims, style=rng.choice([None, "corner-of-rotated"]) if rot else None)
         if not rot or all(min(abs(p[a] - box[0][a]), abs(p[a] - box[1][a])) > 1e-6 for p in cent for a in range(dims)):
@@ -420,6 +426,9 @@ def do_octree(case, rec, rng, ws, dims, inverse, copy):
     cent = [(origin[0] + (i + n / 2.0) * 2.0, origin[1] + (j + n / 2.0) * 2.0, origin[2] + (k + n / 2.0) * 2.0) for i, j, k, n in cells]
     vals = grid_values(len(cent))
     obj.add_data({"d": {"values": vals.copy(), "association": "CELL"}})
+    if rng.random() < 0.5:
+        obj.add_data({"labels": {"values": np.array([f"cell {i}" for i in range(len(cent))]), "association": "CELL", "type": "text"}})
+        rec.see("grids-with-text-channels")
     box, style = rand_box(rng, cent, dims)
     exp = expect_vertex_mask(cent, box, dims, inverse)
     got = obj.mask_by_extent(np.array(box), inverse=inverse)
